@@ -124,7 +124,7 @@ def run_property(prop, tier, seed, replay_only=None):
                     int(hspec.get("timeout", 300) * scale), hspec.get("mem", 8),
                     os.path.join(logs_dir, h + ".log"),
                     memsafe=(tier == "thorough" and hspec.get("memsafe_thorough", False)),
-                    extra=hspec.get("extra"))
+                    extra=hspec.get("extra"), fs=hspec.get("fs", 4096))
             finally:
                 sched.release(gb)
                 shutil.rmtree(os.path.join(root, "t_" + h), ignore_errors=True)
@@ -243,7 +243,7 @@ def replay_harness(prop, h, fcs, logs_dir):
     try:
         r = kani.run_harness(crate, os.path.join(root, "t_pb"), h, int(hspec.get("timeout", 300) * 3),
                              hspec.get("mem", 8) * 1.5, os.path.join(logs_dir, h + ".playback.log"),
-                             playback="inplace", extra=hspec.get("extra"))
+                             playback="inplace", extra=hspec.get("extra"), fs=hspec.get("fs", 4096))
         if r.status != "failed":
             return False, None, "playback generation run did not fail again (%s %s)" % (r.status, r.reason)
         wanted = set(fc["description"] for fc in fcs)
